@@ -47,7 +47,9 @@ class PosLine(NamedTuple):
         n += 1
         if lines[-1][-1] in {'\r', '\n'}:
             n += 1
-        cache.append(PosLine(i, n, 0))
+        # the sentinel stands for the end of text: it lies on the last line,
+        # or on the empty line that follows a final line break
+        cache.append(PosLine(i, n - 1, 0))
 
         # the range depends on line[-1] ending in a newline
         endrange = range(len(lines), 2 + len(lines))
